@@ -388,6 +388,17 @@ func runC17(w *World, r *Report) {
 		}
 	}
 
+	r.Rule("C17.streamed-output-as-is", "the message of a streamable-only tool called through Invoke is the concatenation of the tool's chunks as they came: the string concat function of the chunk registry (and the rest of the concat closure) appends pieces without rewriting them (shared with C14.accumulate-only)", 1)
+	{
+		n := 0
+		for _, f := range concatClosure(w) {
+			n += piecesAsTheyCame(w, r, "C17.streamed-output-as-is", f, n)
+		}
+		if n == 0 {
+			undecidedf("C17.streamed-output-as-is: no strings.Builder.WriteString in the concat closure")
+		}
+	}
+
 	r.Rule("C17.index-preserved", "task i <- tool call i; result i <- task i; result lists sized len(tasks)", 3)
 	{
 		// genToolCallTasks: every store into toolCallTasks[i].<field> uses the index of the input.ToolCalls[i] load
